@@ -281,6 +281,18 @@ PROPS['C04'] = {
     'assumptions': ['a stack overflow or abort would kill the harness process and is reported as a crashed shard'],
 }
 
+PROPS['C11'] = {
+    'level': 'proof',
+    'technique': 'Lean 4 theorems on a model of the generic XML element writer (src/xml/encode.rs: indentation, attribute escaping, text lines, Base64) and a reference reader with trim_text semantics: the reader inverts the writer on every well-formed tree, the writer is injective, attribute values and object contents come back exactly for all octet strings + differential check: messages built through the public API of publication/provisioning/identity exchange are written, re-read by the library (equality) and by the Lean reference reader (well-formedness, XML 1.0 characters, entity hygiene, byte-identical re-writing), plus mutated and hostile documents through all six parsers',
+    'claim': 'Lean 4 proofs (for all trees / octet strings): parseDoc (writeDoc t) = some t for every tree with XML names, attribute values without raw quote or <, non-empty text lines without < and without surrounding white space and no two text lines in a row (both side conditions shown necessary by counterexample theorems); distinct such trees are written differently; escapeAttr of ANY octet string is an admissible attribute value and un-escapes to the original; the Base64 text of any non-empty object is an admissible text line and decodes to the object. Partial: the mapping of each of the ~25 message types to and from such trees is not modelled type by type; it is established by the correspondence run: library writer vs library reader on generated messages (equality, idempotent re-writing), the reference reader accepts every written document and the generic writer model reproduces its bytes from the tree read. quick-xml is not modelled.',
+    'note': 'Escape tables are re-read from src/xml/encode.rs on every run. Four recorded findings (KNOWN_FINDINGS.txt): tag None vs "" on publication elements (two directions), error_text None re-written with the default text, C0 control characters written verbatim. Generator restricted to protocol-valid values after analysis: whole-second not_after, error replies with at least one report_error.',
+    'shards': {'quick': 4, 'thorough': 16},
+    'budget': {'quick': 900, 'thorough': 7200},
+    'rule': '4k (thorough 54k) documents over the six parsers: publication (list, list reply 0-200 elements, deltas with publish/update/withdraw in any mix, tags None/Some incl. every XML-special character, white space, empty, long; objects of all byte values 0-4096 octets; success; error replies for every code), provisioning (every payload type; class names and handles over the whole admitted character set, lengths 1 and 255; resource sets of all shapes incl. IPv4-mapped IPv6; issued certificates, CSRs, key identifiers, every not-performed code), RFC 8183 (four message types, tags, service URIs, id certificates); per API-made document one mutation (byte delete/duplicate/replace, attribute swap, comment, CDATA, entity and character references, unknown attribute/element, wrong namespace/version, truncation at tag boundaries), empty document, random octets, nesting to depth 40000, 100 kB attribute values, all XML files under /repo/test-data/ca.',
+    'trusted_base': ['quick-xml 0.39 (not modelled)', 'PartialEq of the message types as the equality of the statement'],
+    'assumptions': [],
+}
+
 NOT_APPLICABLE = {
 }
 for _i in range(1, 18):
